@@ -33,7 +33,7 @@ def _write_frame(fd, obj):
     data = struct.pack("<I", len(data)) + data
     off = 0
     while off < len(data):
-        off += os.write(fd, data[off:])
+        off += seams._real_os_write(fd, data[off:])
 
 
 def _read_exact(fd, n, timeout):
